@@ -41,6 +41,10 @@ def run(check):
     # the instance (a container that is empty now and filled later would change its signature between retrievals); shared with C13.R6
     from ..rules_wrappers import rule_as_forged_get
     check.run_rule('C18.R6b', lambda c: rule_as_forged_get(c, 'C18.R6'))
+    # applying one decorator object to several functions gives each the same treatment: what functools.partial calls again and again does
+    # not use up its bound arguments (shared with C12.R3p)
+    from ..rules_derived import rule_partial_targets_pure
+    check.run_rule('C18.R8', lambda c: rule_partial_targets_pure(c, 'C18.R8', ('modifiers',)))
     from ..rules_modifiers import rule_reprepare_invalidates_cache
     check.run_rule('C18.R7', lambda c: rule_reprepare_invalidates_cache(c, 'C18.R7'))
     check.run_rule('C18.R1b', lambda c: rule_recursion_guard_emptied(c, 'C18.R1'))
